@@ -72,8 +72,20 @@ Print Assumptions C04_windows_contains_plain.
 Print Assumptions C04_windows_contains_disk.
 (* C04_windows_contains_partial: containment for bases with a UNC / verbatim / device-namespace prefix
    (implicit root after a bare prefix, verbatim fold) is not proved; it is decided on every explored
-   (base, p) pair by oracle_c04 (decision, error kind) and oracle_c10 (components of the join). The base
-   of exactly two separators is the known finding D10. *)
+   (base, p) pair by oracle_c04 itself, over the specification only (Oracles.c04_contains: the components of
+   the result begin with the components of the base, and for a non-verbatim base they are the base, the
+   root a bare non-disk prefix implies, and what p adds).  Two input classes fail it on the unchanged crate
+   and are recorded findings: the base of exactly two separators (D10) and the base that is the verbatim
+   prefix named exactly "UNC" (D17): in both, appending a separator and a name spells a longer prefix. *)
+Lemma C04_windows_d10_refuted :
+  w_push_checked [92;92] [98] = ([92;92;98], None) /\ wspec [92;92] = [WC Root] /\
+  wspec [92;92;98] = [WPrefix [92;92;98] (UNC [98] [])].
+Proof. vm_compute. repeat split. Qed.
+Lemma C04_windows_d17_refuted :
+  w_push_checked [92;92;63;92;85;78;67] [120] = ([92;92;63;92;85;78;67;92;120], None) /\
+  wspec [92;92;63;92;85;78;67] = [WPrefix [92;92;63;92;85;78;67] (Verbatim [85;78;67])] /\
+  wspec [92;92;63;92;85;78;67;92;120] = [WPrefix [92;92;63;92;85;78;67;92;120] (VerbatimUNC [120] [])].
+Proof. vm_compute. repeat split. Qed.
 
 Example C04_example :
   u_push_checked [47;115;114;118] [97;47;46;46;47;46;46;47;101] = ([47;115;114;118], Some ETraversal)
